@@ -25,12 +25,15 @@ macro_rules! harnesses {
     };
 }
 
+#[path = "/verif/harness/common/flatserde.rs"]
+pub mod flat;
 pub mod g_curve25519;
 pub mod g_ristretto;
 pub mod g_nist;
+pub mod g_serde;
 
-pub fn tables() -> [&'static [(&'static str, fn())]; 3] {
-    [g_curve25519::TABLE, g_ristretto::TABLE, g_nist::TABLE]
+pub fn tables() -> [&'static [(&'static str, fn())]; 4] {
+    [g_curve25519::TABLE, g_ristretto::TABLE, g_nist::TABLE, g_serde::TABLE]
 }
 
 #[cfg(not(kani))]
